@@ -1,15 +1,14 @@
 """C23 — Comptime tracing leaves the user's module untouched.
 
-Fault enumeration with the history explorer `vlib.histx` (one forked interpreter image
-per history prefix, so every history really is ONE interpreter session).
+Fault enumeration over histories of check/compile calls.
 
 Enumerated space (complete for the stated bounds, no sampling):
 
 * module variant: the generated module binds NONE of the names the tracer shadows, or
   binds each non-empty subset of them at module level (`int = MARK_INT`, ...).  The
-  shadowed names are read from the code under test (the `mock` dict that
-  `builtins_mock.mock_builtins` installs) and the driver refuses to run if that set is
-  not exactly the one the generator covers (currently int / float / len).
+  shadowed names are read from the code under test (what `mock_builtins` really
+  installs) and the driver refuses to run if that set is not exactly the one the
+  generator covers (currently int / float / len).
 * program: regular `@guppy` function r; `@guppy.comptime` f (uses int()/float()/len() on
   traced values, calls r); `@guppy.comptime` g (uses the three builtins, calls f).
 * fault: none | fault at seam label L of kind K in mode M | bad return value | type error
@@ -40,6 +39,21 @@ change the module's effective namespace).
 
 Counted separately, never a violation (the statement is silent): order of the keys in
 the module dict; `tracing_active()` left True after a failed step.
+
+How histories are executed.  The state C23 talks about is the namespace of ONE module,
+so the whole space is run by *re-execution*: every maximal history is run from scratch
+in a pool worker on a freshly generated and loaded module (fresh module object, fresh
+definitions), after resetting the two pieces of session state a previous history of the
+same worker can leave behind (the tracing-state context variable and the ENGINE
+caches).  A prefix shared by several maximal histories is therefore executed several
+times; all its executions must agree (counted; a disagreement would mean leaked state
+and fails the run).  Reason: on this VM a forked image costs ~60-70 ms per node and
+forking does not scale over cores (page-table work is serialised), i.e. ~13 nodes/s in
+total, while re-execution costs ~10 ms per step and scales.  To tie the cheap method to
+real sessions, a sub-space (two module variants x representative faults, all histories)
+is ALSO explored with `vlib.histx` (one forked interpreter image per history prefix =
+one genuine interpreter session per history) and every observation must be identical
+to the pooled one.  `replay` always uses a forked fresh image.
 """
 from __future__ import annotations
 
@@ -52,7 +66,7 @@ LEVEL = "fault_enumeration"
 
 SHADOWED = ("int", "float", "len")            # what the generator covers
 OPS = (("compile", "f"), ("compile", "g"), ("check", "f"), ("check", "g"))
-LABELS_QUICK = ("f0", "f1", "g1")
+LABELS_QUICK = ("f0", "f1", "g1", "g2")
 LABELS_FULL = ("f0", "f1", "f2", "f3", "g0", "g1", "g2", "g3")
 KINDS = ("py", "typeerror", "linear", "leak")
 MODES = ("once", "always")
@@ -160,27 +174,31 @@ def variants():
     return [list(v) for v in out]
 
 
-def faults(quick: bool):
-    """quick: 3 labels x 4 kinds, transient ('once') faults, + bad return of f
-    thorough: 8 labels x 4 kinds x {once}, persistent ('always') faults at the two
-    'between two uses' labels, bad return of f and g in both modes."""
+def faults(quick: bool = False):
+    """labels x 4 kinds x 2 modes, bad return of f / g in both modes, type error in the
+    regular function, no fault.  quick: 4 labels (before first use, between two uses,
+    before and after the nested comptime call); thorough: all 8."""
     out = [None, {"kind": "rcheck", "label": None, "mode": "always"}]
-    if quick:
-        for lab in LABELS_QUICK:
-            for kind in KINDS:
-                out.append({"kind": kind, "label": lab, "mode": "once"})
-        out.append({"kind": "badret", "label": "fret", "mode": "once"})
-        return out
-    for lab in LABELS_FULL:
+    for lab in (LABELS_QUICK if quick else LABELS_FULL):
         for kind in KINDS:
-            out.append({"kind": kind, "label": lab, "mode": "once"})
-    for lab in ("f1", "g1"):
-        for kind in KINDS:
-            out.append({"kind": kind, "label": lab, "mode": "always"})
+            for mode in MODES:
+                out.append({"kind": kind, "label": lab, "mode": mode})
     for lab in ("fret", "gret"):
         for mode in MODES:
             out.append({"kind": "badret", "label": lab, "mode": mode})
     return out
+
+
+def forked_subspace(quick: bool):
+    """(variants, faults) explored additionally with histx (real forked sessions)."""
+    vs = [[], list(SHADOWED)]
+    fs = [None, {"kind": "py", "label": "f1", "mode": "once"}]
+    if not quick:
+        fs += [{"kind": "typeerror", "label": "g1", "mode": "once"},
+               {"kind": "linear", "label": "f0", "mode": "always"},
+               {"kind": "leak", "label": "g2", "mode": "once"},
+               {"kind": "badret", "label": "fret", "mode": "once"}]
+    return vs, fs
 
 
 def fault_str(f) -> str:
@@ -229,11 +247,17 @@ def _warm_up() -> None:
     gc.freeze()
 
 
+def root_name(root) -> str:
+    variant, fault = root
+    f = "nofault" if not fault else "_".join(str(fault[k]) for k in ("kind", "label", "mode"))
+    return "c23mod_" + ("".join(n[0] for n in variant) or "none") + "_" + f
+
+
 def init(root) -> None:
     from vlib import gload
     variant, fault = root
     _S.update(fault=fault, fired=0, calls=0, mock_seen=0, mock_missing=0)
-    mod = gload.load(gen_source(variant, fault), name="c23mod")
+    mod = gload.load(gen_source(variant, fault), name=root_name(root))
     _M["mod"] = mod
     _M["snap"] = dict(mod.__dict__)
     _M["order"] = list(mod.__dict__)
@@ -317,6 +341,23 @@ def _classify(obs, first_bad_out=None) -> list[tuple[str, str]]:
     return out
 
 
+def run_history(item) -> list:
+    """Pool worker: run ONE maximal history from scratch on a freshly loaded module.
+    Returns the per-step observations."""
+    from guppylang_internals.engine import ENGINE
+    from guppylang_internals.tracing.state import reset_state
+    from vlib import gload
+    root, hist = item
+    reset_state()          # what an earlier history of this worker may have left behind
+    ENGINE.reset()
+    init(root)
+    try:
+        return [step(root, tuple(hist[:k]), hist[k]) for k in range(len(hist))]
+    finally:
+        gload.unload(_M["mod"])
+        _M.update(mod=None, snap=None, order=None, bsnap=None)
+
+
 def run(ctx) -> dict:
     from vlib import histx
     found = _shadow_names_in_repo()
@@ -325,23 +366,75 @@ def run(ctx) -> dict:
     depth = 2 if ctx.quick else 3
     roots = [[v, f] for f in faults(ctx.quick) for v in variants()]
     _warm_up()
-    res = histx.explore(roots, len(OPS), depth, init, step, workers=ctx.workers, split=1)
+
+    # 1. the whole space by re-execution in pool workers
+    maximal = list(itertools.product(range(len(OPS)), repeat=depth))
+    items = [(roots[ri], list(h)) for ri in range(len(roots)) for h in maximal]
+    outs = ctx.pmap(run_history, items, chunk=32)
+    by_node: dict = {}
+    steps_executed = 0
+    disagree = []
+    k = 0
+    for ri in range(len(roots)):
+        for h in maximal:
+            trace = outs[k]
+            k += 1
+            for j, obs in enumerate(trace):
+                steps_executed += 1
+                node = (ri, h[:j + 1])
+                if node not in by_node:
+                    by_node[node] = obs
+                elif by_node[node] != obs:
+                    disagree.append((node, by_node[node], obs))
+    expected_nodes = len(roots) * sum(len(OPS) ** d for d in range(1, depth + 1))
+    if len(by_node) != expected_nodes:
+        raise RuntimeError(f"harness: {len(by_node)} nodes observed, expected {expected_nodes}")
+    if disagree:
+        (ri, h), o1, o2 = disagree[0]
+        raise RuntimeError(
+            f"harness: {len(disagree)} prefix node(s) observed differently by two re-executions "
+            f"(state leaked between pooled histories), e.g. root {roots[ri]} history {hist_str(h)}: {o1} vs {o2}")
+
+    # 2. cross-validation against real forked sessions on a sub-space
+    vs, fs = forked_subspace(ctx.quick)
+    froots = [[v, f] for f in fs for v in vs]
+    fres = histx.explore(froots, len(OPS), depth, init, step, workers=1, split=1)
+    fork_mismatch = []
+    for fri, h, obs in fres.records:
+        ri = roots.index(froots[fri])
+        if by_node[(ri, h)] != obs:
+            fork_mismatch.append((froots[fri], h, by_node[(ri, h)], obs))
+        # the forked observation is checked against the invariant in its own right
+        first_bad = None
+        for kk in range(1, len(h) + 1):
+            o = next(o for r2, h2, o in fres.records if r2 == fri and h2 == h[:kk])
+            if o["ns"] or o["bi"]:
+                first_bad = o["out"]
+                break
+        for key, desc in _classify(obs, first_bad):
+            ctx.violation(key, f"{desc} after history {hist_str(h)} (last step -> {obs['out']}); module binds "
+                               f"{froots[fri][0] or 'none of int/float/len'}; fault: {fault_str(froots[fri][1])} [forked session]",
+                          {"variant": froots[fri][0], "fault": froots[fri][1], "history": list(h)})
+    if fork_mismatch:
+        r0, h0, o1, o2 = fork_mismatch[0]
+        raise RuntimeError(
+            f"harness: pooled re-execution and forked session disagree on {len(fork_mismatch)} node(s), e.g. "
+            f"{r0} {hist_str(h0)}: pooled {o1} vs forked {o2}")
 
     outcomes: dict[str, int] = {}
     n_traced = n_fault_fired = n_active = n_order = n_viol_obs = 0
     mock_missing = 0
-    nontrivial = set()
+    nontrivial = 0
     failed_then_ok = 0
     samples = []
     # report the shortest history first
-    recs = sorted(res.records, key=lambda r: (len(r[1]), r[0], r[1]))
-    by_node = {(ri, h): obs for ri, h, obs in res.records}
-    for ri, h, obs in recs:
+    for (ri, h), obs in sorted(by_node.items(), key=lambda kv: (len(kv[0][1]), kv[0][0], kv[0][1])):
         variant, fault = roots[ri]
         outcomes[obs["out"]] = outcomes.get(obs["out"], 0) + 1
         if obs["calls"]:
             n_traced += 1
-            nontrivial.add((ri, h))
+            if obs["mock_seen"]:
+                nontrivial += 1
         if obs["fired"]:
             n_fault_fired += 1
         mock_missing += obs["mock_missing"]
@@ -353,8 +446,8 @@ def run(ctx) -> dict:
             failed_then_ok += 1
         first_bad = None
         if obs["ns"] or obs["bi"]:
-            for k in range(1, len(h) + 1):
-                o = by_node[(ri, h[:k])]
+            for kk in range(1, len(h) + 1):
+                o = by_node[(ri, h[:kk])]
                 if o["ns"] or o["bi"]:
                     first_bad = o["out"]
                     break
@@ -364,26 +457,29 @@ def run(ctx) -> dict:
                 key,
                 f"{desc} after history {hist_str(h)} (last step -> {obs['out']}); module binds {variant or 'none of int/float/len'}; fault: {fault_str(fault)}",
                 {"variant": variant, "fault": fault, "history": list(h)})
-        if len(samples) < 6 and obs["fired"] and len(h) == 2 and ri % 37 == 0:
+        if len(samples) < 6 and obs["fired"] and len(h) == 2 and ri % 97 == 5:
             samples.append({"variant": variant, "fault": fault_str(fault), "history": hist_str(h), "obs": obs})
     if mock_missing:
         # tracing ran without the mocks in the module globals: the generated program no
-        # longer exercises the anchored mechanism -> the check would be vacuous
+        # longer exercises the anchored mechanism
         ctx.notes.append(f"seam saw the module WITHOUT the mocks {mock_missing} time(s)")
     if n_traced == 0:
         raise RuntimeError("no step ever reached a seam: tracing did not run (vacuous)")
-    cov = {
-        "evaluations": len(res.records),
-        "distinct_nontrivial": len(nontrivial),
-        "rule": "a (variant, fault, history) node is non-trivial iff its last step actually traced a comptime body (>= 1 seam call, mocks observed installed in the module dict during the call)",
+    return {
+        "evaluations": len(by_node),
+        "distinct_nontrivial": nontrivial,
+        "rule": "a (variant, fault, history) node is non-trivial iff its last step actually traced a comptime body (>= 1 seam call) and the seam saw the three mocks installed in the module dict",
         "samples": samples,
         "module_variants": len(variants()),
         "fault_points": len(faults(ctx.quick)),
         "roots": len(roots),
         "history_depth": depth,
-        "histories_completed": len(roots) * len(OPS) ** depth,
-        "steps_executed": res.executed,
-        "forks": res.forks,
+        "histories_completed": len(items),
+        "steps_executed": steps_executed,
+        "prefix_reexecutions_all_agree": steps_executed - len(by_node),
+        "forked_sessions_nodes": len(fres.records),
+        "forked_sessions_forks": fres.forks,
+        "forked_sessions_identical_to_pooled": len(fres.records) - len(fork_mismatch),
         "steps_where_fault_fired": n_fault_fired,
         "steps_ok_after_failed_prefix_step": failed_then_ok,
         "outcomes": dict(sorted(outcomes.items())),
@@ -392,10 +488,9 @@ def run(ctx) -> dict:
         "not_violation_tracing_state_left_active": n_active,
         "not_violation_module_key_order_changed": n_order,
         "shadowed_names_in_repo": found,
-        "explorer": "histx: fork per history branch (one interpreter session per history)",
+        "explorer": "re-execution of every maximal history on a fresh module in pool workers; histx (fork per history branch) on a sub-space as cross-validation and for replay",
         "exhaustive": True,
     }
-    return cov
 
 
 def replay(ctx, item) -> dict:
